@@ -29,6 +29,7 @@ import BioCantor.Proofs.GffDecode
 import BioCantor.Proofs.GffFix
 import BioCantor.Proofs.GffFullFc
 import BioCantor.Proofs.GffText
+set_option autoImplicit false   -- an unresolved name in a statement must be an error, never a bound variable
 namespace BioCantor.Props.C11
 open BioCantor BioCantor.Model.Gff BioCantor.Proofs.GffEscape BioCantor.Proofs.GffRows BioCantor.Proofs.GffAttrs
 open BioCantor.Proofs.GffIds BioCantor.Proofs.GffLine BioCantor.Proofs.GffDecode BioCantor.Proofs.GffFull
